@@ -1,10 +1,10 @@
-import N0Verif.Proofs.NXml
+import N0Verif.Proofs.NXmlStr
 /-!
 # C18 — n0xml keeps document order and its searches return only real nodes
 
 Only property statements live here; definitions of the specification side (`flatKids`,
 `elemAt`, `valueOf`, …) and helper lemmas are in `Proofs/NXml.lean`.  The model
-(`Model/NXml.lean`) follows `n0struct_xml.py` with fixes C18-a, C18-b, C18-c applied; its input
+(`Model/NXml.lean`) follows `n0struct_xml.py` with fixes C18-a, C18-b, C18-c, C18-d applied; its input
 is the element tree ElementTree reports (the XML parser is trusted).
 -/
 namespace N0.C18
@@ -129,47 +129,40 @@ def nonEmpty : Option (List Hit) → Bool
   | some (_ :: _) => true
   | _ => false
 
-/-- **C18 (findfirst), full statement — not proved; differential only.**  `findfirst` is the
-first `findall` result (nothing when `findall` returns an empty list or `None`), for every
-expression in which no `**[filter]` step is directly followed by `..`.  Without that restriction
-the statement is false on the pinned code: `C18_findfirst_cex` (finding C18-d). -/
-def C18_findfirst_stmt : Prop :=
-  ∀ (root : XVal) (sought : List Str) (r : Option (List Hit)), filteredDeepUp sought = false →
-    findallL false root sought = .ok r → findfirstL root sought = .ok (firstOf r)
+/-- **C18 (findfirst).**  For **every** expression — any list of steps: names, `*`, `**`, indexes,
+`text()` conditions, `..`, any length — `findfirst` is the first `findall` result, and the empty
+tuple (`none`) when `findall` returns an empty list or `None`.  (Code with fix C18-d; on the
+unfixed code the statement is false for a filtered `**` step directly followed by `..`.) -/
+theorem C18_findfirst (root : XVal) (sought : List Str) (r : Option (List Hit))
+    (h : findallL false root sought = .ok r) : findfirstL root sought = .ok (firstOf r) :=
+  (findfirst_all root sought r h).1
 
-/-- **C18 (in), full statement — not proved; differential only.**  `xp in doc` is true exactly
-when `findall(xp)` is a non-empty list (fix C18-a applied). -/
-def C18_in_iff_stmt : Prop :=
-  ∀ (root : XVal) (sought : List Str) (r : Option (List Hit)),
-    findallL false root sought = .ok r → containsL root sought = .ok (nonEmpty r)
-
-/-- **C18 (findfirst), proved part.**  For every expression without a `..` step (names, `*`,
-`**`, indexes, `text()` conditions; any length) `findfirst` is the first `findall` result — the
-empty tuple (`none`) when `findall` finds nothing — and `findall` never returns `None`. -/
-theorem C18_findfirst_partial (root : XVal) (sought : List Str) (hs : NoUp sought)
-    (r : Option (List Hit)) (h : findallL false root sought = .ok r) :
-    findfirstL root sought = .ok (firstOf r) ∧ r ≠ none := by
-  obtain ⟨h1, _, l, _, hl, _, _⟩ := findfirst_noUp root sought hs r h
-  exact ⟨h1, by simp [hl]⟩
-
-/-- **C18 (in), proved part.**  For every expression without a `..` step, `xp in doc` is true
-exactly when `findall(xp)` is a non-empty list (fix C18-a applied). -/
-theorem C18_in_iff_partial (root : XVal) (sought : List Str) (hs : NoUp sought)
-    (r : Option (List Hit)) (h : findallL false root sought = .ok r) :
-    containsL root sought = .ok (nonEmpty r) := by
-  obtain ⟨_, h2, _⟩ := findfirst_noUp root sought hs r h
-  rw [h2]
+/-- **C18 (in).**  For every expression, `xp in doc` is true exactly when `findall(xp)` is a
+non-empty list (fix C18-a applied). -/
+theorem C18_in_iff (root : XVal) (sought : List Str) (r : Option (List Hit))
+    (h : findallL false root sought = .ok r) : containsL root sought = .ok (nonEmpty r) := by
+  rw [(findfirst_all root sought r h).2.1]
   cases r with
   | none => rfl
   | some l => cases l <;> rfl
 
-/-- with `find_first=True` `findall` returns a prefix of what it returns otherwise (no `..`) -/
-theorem C18_find_first_prefix (root : XVal) (sought : List Str) (hs : NoUp sought)
-    (l : List Hit) (h : findallL false root sought = .ok (some l)) :
-    ∃ l', findallL true root sought = .ok (some l') ∧ l' <+: l := by
-  obtain ⟨_, _, l0, l', hl, hT, hp⟩ := findfirst_noUp root sought hs _ h
-  cases hl
-  exact ⟨l', hT, hp⟩
+/-- with `find_first=True` `findall` returns a prefix of what it returns otherwise — `None`
+exactly when the full search returns `None` — for every expression -/
+theorem C18_find_first_prefix (root : XVal) (sought : List Str) (r : Option (List Hit))
+    (h : findallL false root sought = .ok r) :
+    ∃ r', findallL true root sought = .ok r' ∧
+      ((∃ l l', r = some l ∧ r' = some l' ∧ l' <+: l) ∨ (r = none ∧ r' = none)) :=
+  (findfirst_all root sought r h).2.2.1
+
+/-- `findall` returns `None` only when a `..` leaves the node the search started from: the static
+classification `kindL` of the step list says which expressions can (`false`), and then the result
+is `None` or `[]`; an expression without `..` is never of that kind -/
+theorem C18_findall_none (root : XVal) (sought : List Str) (r : Option (List Hit))
+    (h : findallL false root sought = .ok r) :
+    (kindL sought = true → r ≠ none) ∧ (kindL sought = false → r = none ∨ r = some []) ∧
+    (NoUp sought → r ≠ none) :=
+  ⟨(findfirst_all root sought r h).2.2.2.1, (findfirst_all root sought r h).2.2.2.2,
+    fun hs => (findfirst_all root sought r h).2.2.2.1 (kindL_noUp sought hs)⟩
 
 example : NoUp [s "**", s "a[text()!=z]"] := by
   intro x hx
@@ -186,22 +179,41 @@ def cexDoc : Elem :=
     .mk (s "a") none [] [.mk (s "b") none [] [], .mk (s "b") none [] []],
     .mk (s "a") none [] []]
 
-/-- **finding C18-d.**  With `**[1]/..` on `<r><a><b/><b/></a><a/></r>` `findall` reports the
-root (path `[]`) as its only and first result, but `findfirst` reports the first `<a>`:
-`findfirst` is not the first `findall` result. -/
-theorem C18_findfirst_cex :
-    findallL false (parseNode cexDoc) [s "**[1]", s ".."] = .ok (some [([], parseNode cexDoc)]) ∧
+/-- the witness of the former finding C18-d (`**[1]/..` on `<r><a><b/><b/></a><a/></r>`): with the
+fix `findall` lists both parents of a second-of-its-tag element, the first `<a>` and the root, and
+`findfirst` is the first of them (before the fix `findall` returned the root only) -/
+example :
+    findallL false (parseNode cexDoc) [s "**[1]", s ".."]
+      = .ok (some [([s "a[0]"], .nodes [(s "b", [], .text none), (s "b", [], .text none)]),
+                   ([], parseNode cexDoc)]) ∧
     findfirstL (parseNode cexDoc) [s "**[1]", s ".."]
       = .ok (some ([s "a[0]"], .nodes [(s "b", [], .text none), (s "b", [], .text none)])) ∧
     filteredDeepUp [s "**[1]", s ".."] = true := by decide +kernel
 
-/-- `in` and `findall` still agree on that witness -/
 example : containsL (parseNode cexDoc) [s "**[1]", s ".."] = .ok true := by decide +kernel
 example : containsL (parseNode exDoc) [s "b", s "zz"] = .ok false ∧
     findallL false (parseNode exDoc) [s "b", s "zz"] = .ok (some []) := by decide +kernel
+/-- an expression of the second kind: `None`, and `in` is false -/
 example : containsL (parseNode exDoc) [s "..", s "a"] = .ok false ∧
-    findallL false (parseNode exDoc) [s "..", s "a"] = .ok none := by decide +kernel
-example : findfirstL (parseNode exDoc) [s "**", s "a"] = .ok (some ([s "b", s "a"], .text (some (s "1")))) ∧
-    filteredDeepUp [s "**", s "a"] = false := by decide +kernel
+    findallL false (parseNode exDoc) [s "..", s "a"] = .ok none ∧ kindL [s "..", s "a"] = false := by
+  refine ⟨by decide +kernel, by decide +kernel, ?_⟩
+  have e : s ".." = dotdot := by decide +kernel
+  rw [e, kindL_up]
+/-- a `..` that stays inside: first kind -/
+example : findallL false (parseNode exDoc) [s "b", s "a", s "..", s "c"] =
+      .ok (some [([s "b", s "c"], .text none)]) ∧
+    kindL [s "b", s "a", s "..", s "c"] = true := by
+  refine ⟨by decide +kernel, ?_⟩
+  have e : s ".." = dotdot := by decide +kernel
+  have hc : s "c" ≠ dotdot := by decide +kernel
+  have ha : s "a" ≠ dotdot := by decide +kernel
+  have hb : s "b" ≠ dotdot := by decide +kernel
+  have h1 : kindL [s "c"] = true := kindL_of_rest _ _ hc kindL_nil
+  have h2 : kindL [s "..", s "c"] = false := by rw [e]; exact kindL_up _
+  have h3 : kindL [s "a", s "..", s "c"] = true := by
+    rw [kindL_skip _ _ ha h2]; simpa using h1
+  exact kindL_of_rest _ _ hb h3
+example : findfirstL (parseNode exDoc) [s "**", s "a"] = .ok (some ([s "b", s "a"], .text (some (s "1")))) := by
+  decide +kernel
 
 end N0.C18
